@@ -292,50 +292,65 @@ def keyPeekB (mf : Nat) (ifKey otherwise : TokType) (s : BS) : TokType × BS :=
   | none => (otherwise, p.2)
   | some c => if c = colon then (ifKey, skipOne p.2) else (otherwise, p.2)
 
-/-- the `while ((text_start >= next_char) && (result == CIF_OK))` loop of next_token; `ty` = the local `ttype` -/
+/-- outcome of one pass through the body of next_token's loop: control returns to the loop head either with a token type
+    assigned (`break` out of the switch) or after `CONSUME_TOKEN … continue` (whitespace / comment, new `after_ws`) -/
+inductive StepB where
+  | tok (ty : TokType) (s : BS)
+  | skip (afterWs : Bool) (s : BS)
+
+/-- the body of next_token's loop after NEXT_CHAR delivered `c` (state `s1`): the metaclass switch (CIF_MISSING_SPACE), the
+    class switch and the reserved-word block.  Every scan function called gets its own iteration bound `fuelOf`. -/
+def stepTokB (dia : Dialect) (mf : Nat) (afterWs : Bool) (c : CU) (s1 : BS) : L StepB := do
+  let cls := classOf dia c
+  let m := metaOfCls cls
+  reportIf (m != .close && m != .ws && !afterWs) CIF_MISSING_SPACE s1.line (s1.col - 1)
+  if cls = .eol then do
+    let s2 ← scanWsB dia mf (fuelOf (backUp s1)) (backUp s1) (backUp s1).sb.limit 0
+    pure (.skip true (consumeToken s2))
+  else if cls = .ws then do
+    let s2 ← scanWsB dia mf (fuelOf s1) s1 s1.sb.limit 0
+    pure (.skip true (consumeToken s2))
+  else if cls = .hash then do
+    let s2 ← scanToEolB dia mf (fuelOf s1) s1 s1.sb.limit false
+    pure (.skip afterWs (consumeToken s2))
+  else if cls = .undersc then do
+    let s2 ← scanToWsB dia mf (fuelOf s1) s1 s1.sb.limit false
+    pure (.tok .name s2)
+  else if cls = .obrak then pure (.tok .olist { s1 with tvlen := 1 })
+  else if cls = .cbrak then pure (.tok .clist { s1 with tvlen := 1 })
+  else if cls = .ocurl then pure (.tok .otable { s1 with tvlen := 1 })
+  else if cls = .ccurl then pure (.tok .ctable { s1 with tvlen := 1 })
+  else if cls = .quote then do
+    let s2 ← scanDelimB dia mf (s1.get s1.sb.textStart) (fuelOf s1) s1 s1.sb.limit false
+    let k := keyPeekB mf .key .qvalue s2
+    pure (.tok k.1 k.2)
+  else if cls = .semi ∧ s1.col = 1 then do
+    let s2 ← scanTextB dia mf (fuelOf s1) s1 s1.sb.limit false 0
+    if dia = .cif2 then
+      let k := keyPeekB mf .tkey .tvalue s2
+      pure (.tok k.1 k.2)
+    else pure (.tok .tvalue s2)
+  else do
+    let s2 ← scanUnquotedB dia mf (fuelOf (backUp s1)) (backUp s1) (backUp s1).sb.limit false 0 true true
+    let f ← finishUnquotedB dia s2
+    pure (.tok f.1 f.2)
+
+/-- the `while ((text_start >= next_char) && (result == CIF_OK))` loop of next_token; `ty` = the local `ttype`.
+    `fuel` bounds the iterations of this loop (each consumes at least one unit). -/
 def tokLoopB (dia : Dialect) (mf : Nat) : Nat → BS → Bool → TokType → L BS
   | 0, s, _, ty => pure { s with ttype := ty }
   | fuel + 1, s, afterWs, ty =>
     if s.sb.textStart ≥ s.sb.next then
+      -- ttype = ERROR; TVALUE_SETSTART(text_start); TVALUE_SETLENGTH(0); NEXT_CHAR
       let s0 : BS := { s with sb := { s.sb with tvalueStart := s.sb.textStart }, tvlen := 0 }
       let n := nextChar mf s0
       match n.1 with
       | none => pure { n.2 with ttype := .end_ }
       | some c => do
-        let s1 := n.2
-        let cls := classOf dia c
-        let m := metaOfCls cls
-        reportIf (m != .close && m != .ws && !afterWs) CIF_MISSING_SPACE s1.line (s1.col - 1)
-        if cls = .eol then do
-          let s2 ← scanWsB dia mf (fuel + 1) (backUp s1) (backUp s1).sb.limit 0
-          tokLoopB dia mf fuel (consumeToken s2) true .error
-        else if cls = .ws then do
-          let s2 ← scanWsB dia mf (fuel + 1) s1 s1.sb.limit 0
-          tokLoopB dia mf fuel (consumeToken s2) true .error
-        else if cls = .hash then do
-          let s2 ← scanToEolB dia mf (fuel + 1) s1 s1.sb.limit false
-          tokLoopB dia mf fuel (consumeToken s2) afterWs .error
-        else if cls = .undersc then do
-          let s2 ← scanToWsB dia mf (fuel + 1) s1 s1.sb.limit false
-          tokLoopB dia mf fuel s2 afterWs .name
-        else if cls = .obrak then tokLoopB dia mf fuel { s1 with tvlen := 1 } afterWs .olist
-        else if cls = .cbrak then tokLoopB dia mf fuel { s1 with tvlen := 1 } afterWs .clist
-        else if cls = .ocurl then tokLoopB dia mf fuel { s1 with tvlen := 1 } afterWs .otable
-        else if cls = .ccurl then tokLoopB dia mf fuel { s1 with tvlen := 1 } afterWs .ctable
-        else if cls = .quote then do
-          let s2 ← scanDelimB dia mf (s1.get s1.sb.textStart) (fuel + 1) s1 s1.sb.limit false
-          let k := keyPeekB mf .key .qvalue s2
-          tokLoopB dia mf fuel k.2 afterWs k.1
-        else if cls = .semi ∧ s1.col = 1 then do
-          let s2 ← scanTextB dia mf (fuel + 1) s1 s1.sb.limit false 0
-          if dia = .cif2 then
-            let k := keyPeekB mf .tkey .tvalue s2
-            tokLoopB dia mf fuel k.2 afterWs k.1
-          else tokLoopB dia mf fuel s2 afterWs .tvalue
-        else do
-          let s2 ← scanUnquotedB dia mf (fuel + 1) (backUp s1) (backUp s1).sb.limit false 0 true true
-          let f ← finishUnquotedB dia s2
-          tokLoopB dia mf fuel f.2 afterWs f.1
+        let st ← stepTokB dia mf afterWs c n.2
+        match st with
+        | .tok ty' s2 => tokLoopB dia mf fuel s2 afterWs ty'
+        | .skip aw s2 => tokLoopB dia mf fuel s2 aw .error
     else pure { s with ttype := ty }
 
 /-- next_token -/
